@@ -22,7 +22,15 @@ ENGINE_TXT = ("Engine theorems (NR.Props.EngineThms, generic in the cached value
               "Array level (NR.Props.LinksThms over NR.Links, a transcription of attach / detach and of the move's attach "
               "loop): the next / previous / in-vehicle arrays always represent the route lists, a move's attach produces "
               "exactly the route the hypothetical-route iterator yields, and the rollback of a rejected Execute restores "
-              "the arrays exactly; tied by the `links` lines (arrays before/after every Execute and un-plan). ")
+              "the arrays exactly; tied by the `links` lines (arrays before/after every Execute and un-plan). "
+              "Concrete instance (NR.Props.SchedThms over NR.Sched, a transcription of what isFeasible caches per stop and of "
+              "the exact checks the factory registers): walking a route with it yields Spec.schedule / levels / distances, "
+              "its exact checks hold iff Spec.temporalOK = none and the capacity and distance clauses of Spec.staticOK hold, "
+              "so every state reached by any admissible history has cached times = Spec.schedule, levels = Spec.levels, "
+              "Spec.temporalOK = none, no capacity / distance clause, and score = Spec.objective (all terms but the unplanned "
+              "penalty) — the engine theorems in the vocabulary of the specification that judges the real code; tied by the "
+              "`eng` lines (every Execute / un-plan / vehicle un-plan of every history without user constraints replayed by "
+              "applyOp over this instance: result and every cached value of the vehicle compared). ")
 
 PROPS = {
     "C01": {
@@ -38,7 +46,7 @@ PROPS = {
             "technique": "Lean 4 proof (invariant by induction over operation histories) + Spec oracle on the real code's observations",
             "design_ref": "DESIGN.md §5 C01, §3.6",
         },
-        "lean_props": ["C01", "EngineThms"],
+        "lean_props": ["C01", "EngineThms", "SchedThms"],
         "facts": ["CheckFacts"],
         "streams": [SOL, HIST, HISTW],
     },
@@ -54,7 +62,7 @@ PROPS = {
             "technique": "Lean 4 proof (engine invariant, AllOk clause) + Spec oracle on the real code's observations",
             "design_ref": "DESIGN.md §5 C02",
         },
-        "lean_props": ["C02", "C02W", "EngineThms"],
+        "lean_props": ["C02", "C02W", "EngineThms", "SchedThms"],
         "facts": ["CheckFacts"],
         "streams": [SOL, HIST, HISTW, RC],
     },
@@ -87,7 +95,7 @@ PROPS = {
             "technique": "Lean 4 proof (cache consistency invariant over histories) + independent schedule oracle on the real code's observations",
             "design_ref": "DESIGN.md §5 C04",
         },
-        "lean_props": ["C04", "EngineThms", "LinksThms"],
+        "lean_props": ["C04", "EngineThms", "LinksThms", "SchedThms"],
         "streams": [SOL, HIST, HISTUC],
     },
     "C05": {
@@ -103,7 +111,7 @@ PROPS = {
             "technique": "Lean 4 proof (partial + counterexample) + independent objective oracle on the real code's observations",
             "design_ref": "DESIGN.md §5 C05",
         },
-        "lean_props": ["C05", "C08", "EngineThms"],
+        "lean_props": ["C05", "C08", "EngineThms", "SchedThms"],
         "streams": [SOL, HIST, HISTUC],
     },
     "C06": {
